@@ -24,18 +24,76 @@ import keymaps  # noqa: E402
 LEVEL = "proof"
 
 MUTATION_DRILLS = [
-    {"mutation": "Context::set_caret_pos: `caret_pos_ = caret_pos + 1` when in range (off by one)",
-     "ran": "VERIF_REPO=/var/tmp/wt-c05 VERIF_CACHE=/var/tmp/rime-verif-c05 bin/check C05 quick",
-     "fired": "buffer-spec:* (caret differs after KP_Left/KP_Right/Home) on synthetic and stock schemas; correspondence:synth"},
-    {"mutation": "Context::PopInput: erase at caret_pos_ instead of caret_pos_ - len (deletes the char AFTER the caret)",
-     "ran": "same", "fired": "buffer-spec:* (input differs after BackSpace with the caret in the middle); correspondence:synth"},
-    {"mutation": "Context::DeleteInput: `if (caret_pos_ + len >= input_.length()) return false` (cannot delete the last char)",
-     "ran": "same", "fired": "buffer-spec:* (input differs after Delete just before the end); correspondence:synth"},
-    {"mutation": "Navigator::ProcessKeyEvent: also decline when the caret is at 0 (Home/KP_Left not handled at the left edge)",
-     "ran": "same", "fired": "buffer-spec:* (handled flag / wrap-around at caret 0); correspondence:synth"},
-    {"mutation": "navigator.cc: bind {XK_KP_Left, 0} to &Navigator::LeftBySyllable",
-     "ran": "same", "fired": "proof:Properties_C05 (C05_alphabet_bindings no longer checks against the regenerated Gen/Keymaps.v) "
-                             "and buffer-spec:* with a failing history"},
+ {
+  "mutation": "Context::set_caret_pos: caret_pos_ = caret_pos + 1 for 0 < caret_pos < |input| (off by one)",
+  "ran": "scratch worktree /var/tmp/wt-eng at /repo HEAD + the mutation; VERIF_REPO=/var/tmp/wt-eng VERIF_CACHE=/var/tmp/rime-verif-eng bin/check C05 quick",
+  "exit": 1,
+  "printed": "VIOLATION property=C05 replay=replays/C05-quick-0.json",
+  "violation_keys": [
+   "buffer-spec:cangjie5",
+   "buffer-spec:cangjie5_fluid",
+   "buffer-spec:luna_pinyin",
+   "buffer-spec:luna_pinyin_fluid",
+   "buffer-spec:synth_express",
+   "buffer-spec:synth_fluid"
+  ]
+ },
+ {
+  "mutation": "Context::PopInput: erase at caret_pos_ instead of caret_pos_ - len when the caret is inside the input",
+  "ran": "scratch worktree /var/tmp/wt-eng at /repo HEAD + the mutation; VERIF_REPO=/var/tmp/wt-eng VERIF_CACHE=/var/tmp/rime-verif-eng bin/check C05 quick",
+  "exit": 1,
+  "printed": "VIOLATION property=C05 replay=replays/C05-quick-0.json",
+  "violation_keys": [
+   "buffer-spec:cangjie5",
+   "buffer-spec:cangjie5_fluid",
+   "buffer-spec:luna_pinyin",
+   "buffer-spec:luna_pinyin_fluid",
+   "buffer-spec:synth_express",
+   "buffer-spec:synth_fluid"
+  ]
+ },
+ {
+  "mutation": "Context::DeleteInput: `caret_pos_ + len >= input_.length()` refuses to delete the last character",
+  "ran": "scratch worktree /var/tmp/wt-eng at /repo HEAD + the mutation; VERIF_REPO=/var/tmp/wt-eng VERIF_CACHE=/var/tmp/rime-verif-eng bin/check C05 quick",
+  "exit": 1,
+  "printed": "VIOLATION property=C05 replay=replays/C05-quick-0.json",
+  "violation_keys": [
+   "buffer-spec:cangjie5",
+   "buffer-spec:cangjie5_fluid",
+   "buffer-spec:luna_pinyin",
+   "buffer-spec:luna_pinyin_fluid",
+   "buffer-spec:synth_express",
+   "buffer-spec:synth_fluid"
+  ]
+ },
+ {
+  "mutation": "Navigator::ProcessKeyEvent: also returns kNoop when caret_pos() == 0 (Home/KP_Left/KP_Right/End unhandled at the left edge)",
+  "ran": "scratch worktree /var/tmp/wt-eng at /repo HEAD + the mutation; VERIF_REPO=/var/tmp/wt-eng VERIF_CACHE=/var/tmp/rime-verif-eng bin/check C05 quick",
+  "exit": 1,
+  "printed": "VIOLATION property=C05 replay=replays/C05-quick-0.json",
+  "violation_keys": [
+   "buffer-spec:cangjie5",
+   "buffer-spec:cangjie5_fluid",
+   "buffer-spec:luna_pinyin",
+   "buffer-spec:luna_pinyin_fluid",
+   "buffer-spec:synth_express",
+   "buffer-spec:synth_fluid"
+  ]
+ },
+ {
+  "mutation": "navigator.cc: keymap.Bind({XK_KP_Left, 0}, &Navigator::LeftBySyllable) (also breaks C05_alphabet_bindings against the regenerated Gen/Keymaps.v)",
+  "ran": "scratch worktree /var/tmp/wt-eng at /repo HEAD + the mutation; VERIF_REPO=/var/tmp/wt-eng VERIF_CACHE=/var/tmp/rime-verif-eng bin/check C05 quick",
+  "exit": 1,
+  "printed": "VIOLATION property=C05 replay=replays/C05-quick-0.json",
+  "violation_keys": [
+   "buffer-spec:cangjie5",
+   "buffer-spec:cangjie5_fluid",
+   "buffer-spec:luna_pinyin",
+   "buffer-spec:luna_pinyin_fluid",
+   "buffer-spec:synth_express",
+   "buffer-spec:synth_fluid"
+  ]
+ }
 ]
 
 
